@@ -303,7 +303,10 @@ fn gen_bulk(rng: &mut Rng, p: &Profile) -> Case {
     let mut sops = Vec::new();
     for id in 0..n {
         sops.push(match (cap, rng.below(10)) {
-            (Cap::Unbounded, 0..=5) => Op::TrySend { h: 0, id },
+            (Cap::Unbounded, 0..=1) => Op::TrySendRt { h: 0, id },
+            (Cap::Unbounded, 2) => Op::TrySendOptRt { h: 0, id },
+            (Cap::Unbounded, 3) => Op::TrySendOpt { h: 0, id },
+            (Cap::Unbounded, 4..=5) => Op::TrySend { h: 0, id },
             (Cap::Unbounded, 6..=7) => Op::Send { h: 0, id },
             (Cap::Unbounded, _) => Op::ASend { h: 0, id, plan: PollPlan::default() },
             (_, 0..=4) => Op::Send { h: 0, id },
@@ -315,6 +318,9 @@ fn gen_bulk(rng: &mut Rng, p: &Profile) -> Case {
         }
     }
     let mut rops = Vec::new();
+    for _ in 0..*rng.pick(&[0u32, 0, 3, 30]) {
+        rops.push(Op::Yield);
+    }
     for _ in 0..rng.range(0, 6) {
         rops.push(match rng.below(5) {
             0 => Op::Drain { h: 0, pre: 0, spare: *rng.pick(&[0u8, 4]) },
